@@ -8,7 +8,7 @@ if [ -n "$(git -C /repo status --porcelain)" ]; then echo "repo not clean" >&2; 
 git -C /repo apply "$patch" || { echo "patch does not apply" >&2; exit 2; }
 trap 'git -C /repo checkout -- .' EXIT
 for id in "$@"; do
-  out=$(cd /verif && VERIF_EVIDENCE_DIR=/tmp/mut-evidence ${TIER:+VERIF_TIER=$TIER} ./check "$id" ${TIER:+--tier $TIER} 2>&1); code=$?
+  out=$(cd /verif && VERIF_BUDGET_S=${BUDGET:-150} VERIF_EVIDENCE_DIR=/tmp/mut-evidence ${TIER:+VERIF_TIER=$TIER} ./check "$id" ${TIER:+--tier $TIER} 2>&1); code=$?
   echo "$id exit=$code $(echo "$out" | grep -m1 '^VIOLATION')"
   echo "$out" | grep -E '^\s+\[C' | head -3
   echo "$out" | tail -1
